@@ -9,7 +9,22 @@ HARNESS = ("h_generator", ["h_generator.cpp"], {})
 HARNESS_T = ("h_generator_t", ["h_generator_t.cpp"], {"extra_flags": ["-fno-access-control", "-I/verif/harness/shim"]})
 
 ACCESS = ("next", "nnext", "anext", "call", "begin", "beginc", "inc", "pinc", "for", "while", "sub", "subr")
-REJECT = ("busy", "gone", "n/a", "noit", "bad-op", "blocked", "bad", "stale", "nokept")
+REJECT = ("busy", "gone", "n/a", "noit", "bad-op", "blocked", "bad", "stale", "nokept", "would-block")
+# operations a consumer may issue from inside a running coroutine (`co <op>`: the thread is in coroutine mode); a blocking wait on a
+# pending future is refused there by the library's own assert, the harness answers `would-block` instead of making it
+CO_OPS = ACCESS + ("value", "active", "getid", "keep", "ktest", "knot", "kawait", "fget", "fwait", "fbool", "fnot", "fawait", "fhas",
+                   "deref", "arrow", "isend", "destroy", "complete")
+MAX_ACC = 8          # `a<c>` statements per script: the accumulator of the int-valued generators stays below 2^31
+
+
+def acc_digit(a):
+    d = int(a[1:] or 0)
+    return d if 1 <= d <= 9 else 1
+
+
+def strip_co(line):
+    """-> (issued from inside a coroutine?, the line without the `co ` prefix)"""
+    return (True, line[3:]) if line.startswith("co ") else (False, line)
 
 
 _hang_files = []
@@ -33,9 +48,14 @@ def parse_script(line):
     """-> (yields, ending, acts)   ending: 'fin' | 'exc'"""
     ys, ending = [], "fin"
     acts = line.split()[1:]
+    acc = 0
     for a in acts:
         if a[0] == "y":
             ys.append(int(a[1:] or 0))
+        elif a[0] == "a":
+            # acc.append(c); co_yield acc;  -- the body's own arithmetic on its own variable
+            acc = acc * 10 + acc_digit(a)
+            ys.append(acc)
         elif a[0] == "t":
             ending = "exc"
             break
@@ -60,7 +80,9 @@ def make_checks(ys, ending, msgs):
         """seen: 'v:<n>' | 'exc' | 'novalue' | 'false' | 'nomore' | 'end' (for) -- a complete description of what access i delivered"""
         kind, v = expect(i)
         if kind == "val":
-            if seen.startswith("v:"):
+            if seen == "v:moved":
+                msgs.append("sequence: access #%d (%s) delivered an emptied (moved-from) object, the body's value #%d is %d" % (i, how, i, v))
+            elif seen.startswith("v:"):
                 if int(seen[2:]) != v:
                     msgs.append("sequence: access #%d (%s) delivered %s, the body's value #%d is %d" % (i, how, seen, i, v))
             elif seen == "exc":
@@ -129,6 +151,14 @@ PROFILES = {
                              styles_a=["kept", "kept", "mixed"], quick=1500, thorough=60000),
     "arguments": dict(p_arg=1.0, flavours=["args", "args", "mixed"], styles_v=["mixed"], styles_a=["next", "anext", "call", "while", "mixed", "mixed"],
                       quick=1500, thorough=70000),
+    "accumulator-body": dict(p_arg=0.35, p_mv=0.7, p_ref=0.1, p_acc=1.0, flavours=["sync", "sync", "async", "mixed", "args"],
+                             styles_v=["call", "call", "call-wait", "next", "iter", "for", "while", "anext", "sub", "kept", "mixed", "mixed"],
+                             styles_a=["call", "call", "call-wait", "next", "while", "anext", "sub", "kept", "mixed", "mixed"],
+                             quick=2000, thorough=90000),
+    "inside-a-coroutine": dict(p_arg=0.35, p_co=1.0, flavours=["sync", "sync", "async", "mixed", "args", "guards"],
+                               styles_v=["next", "iter", "for", "while", "call", "call-wait", "kept", "mixed", "mixed", "sub", "anext"],
+                               styles_a=["next", "while", "call", "call-wait", "kept", "mixed", "mixed", "sub", "anext"],
+                               quick=2000, thorough=90000),
     "destroy-parked": dict(p_arg=0.2, flavours=["guards"], styles_v=["next", "anext", "call", "iter", "mixed"],
                            styles_a=["next", "anext", "call", "mixed"], quick=1500, thorough=60000, p_destroy=0.85),
 }
@@ -208,15 +238,33 @@ class GenSuite(Suite):
             acts.insert(rng.randint(0, len(acts)), "t")
         elif r < 0.32:
             acts.insert(rng.randint(0, len(acts)), "x")
+        if rng.random() < self.prof.get("p_acc", 0.3):
+            # an accumulator body: (most of) its yields extend ONE variable of the body and yield that variable (an lvalue the body
+            # keeps using); a yield that stays `y` is a fresh local or a temporary
+            keep_y = rng.choice([0.0, 0.2, 0.5])
+            nacc = 0
+            for i, a in enumerate(acts):
+                if a[0] == "y" and nacc < MAX_ACC and rng.random() >= keep_y:
+                    acts[i] = "a%d" % rng.randint(1, 9)
+                    nacc += 1
+            if nacc and rng.random() < 0.5 and not any(a[0] == "y" for a in acts):
+                acts.insert(0, "y%d" % rng.randint(1, 9))        # a header line first (a temporary or a local), then the running text
         return acts
 
     def gen_case(self, rng, tier):
         mode = "a" if rng.random() < self.prof["p_arg"] else "v"
-        # value type: int, or a reference (generator<int&> / generator<int&,int>): same bodies, same model; iterators do not exist for it
-        ref = rng.random() < self.prof.get("p_ref", 0.3)
+        # value type: int, a reference (generator<int&> / generator<int&,int>: iterators do not exist for it), or mval, a string-like
+        # type whose move empties the source (generator<mval> / generator<mval,int>): same bodies, same model
+        rv = rng.random()
+        ref = rv < self.prof.get("p_ref", 0.3)
+        mv = (not ref) and rv < self.prof.get("p_ref", 0.3) + self.prof.get("p_mv", 0.25)
         acts = self.gen_script(rng, mode)
         ks = sorted({int(a[1:]) for a in acts if a[0] in "pf"})
-        lines = ["case 0 %s%s %d" % ("r" if ref else "", mode, rng.choice([0, 0, 1, 2])), "script " + " ".join(acts)]
+        lines = ["case 0 %s%s %d" % ("r" if ref else "s" if mv else "", mode, rng.choice([0, 0, 1, 2])), "script " + " ".join(acts)]
+        # execution context of the consumer: ordinary code, inside a running coroutine (every operation), or both mixed
+        rc = rng.random()
+        p_co = self.prof.get("p_co", 0.3)
+        co_rate = 0.0 if rc >= p_co else (1.0 if rc < 0.6 * p_co else 0.5)
         style = rng.choice(self.prof["styles_a"] if mode == "a" else self.prof["styles_v"])
         if ref and style in ("iter", "for"):
             style = rng.choice(["call", "call-wait", "next", "while"])
@@ -259,12 +307,12 @@ class GenSuite(Suite):
             return "%s %d" % ("tcomplete" if rng.random() < 0.4 else "complete", k)
 
         have_it = False
-        nyield = sum(1 for a in acts if a[0] == "y")
+        nyield = sum(1 for a in acts if a[0] in "ya")
         budget = nyield + rng.choice([0, 1, 2, 2, 3, 4]) if rng.random() < 0.9 else 1000   # accesses before the case stops
         if self.prof.get("p_destroy") and rng.random() < 0.7:
             budget = rng.randint(1, max(1, nyield))          # stop while the body is still parked at a co_yield
         for _ in range(nops):
-            if sum(1 for l in lines[2:] if l.split()[0] in ACCESS + ("kawait", "keep")) >= budget:
+            if sum(1 for l in lines[2:] if strip_co(l)[1].split()[0] in ACCESS + ("kawait", "keep")) >= budget:
                 break
             r = rng.random()
             if style == "next":
@@ -347,9 +395,9 @@ class GenSuite(Suite):
                         ops.append("value" if k != "call" else rng.choice(["fwait", "fget", "fawait", "fhas", "fbool", "fnot"]))
                 else:
                     ops = [k]
-            lines += ops
+            lines += [("co " + o) if co_rate and o.split()[0] in CO_OPS and rng.random() < co_rate else o for o in ops]
         if rng.random() < self.prof.get("p_destroy", 0.3):
-            lines.append("destroy")
+            lines.append("co destroy" if co_rate and rng.random() < co_rate else "destroy")
             for _ in range(rng.randint(0, 3)):
                 lines.append(rng.choice(["fget", "fwait", "value", access("next"), completion()]))
         lines.append("end")
@@ -366,12 +414,23 @@ class GenSuite(Suite):
     def _oracle(self, case, out):
         msgs = []
         lines = case["lines"]
-        mode = lines[0].split()[2].lstrip("r")      # rv / ra: reference-typed generators, same statement
+        mode = lines[0].split()[2].lstrip("rs")     # rv / ra, sv / sa: reference-typed / move-sensitive value types, same statement
         if len(lines) < 2 or not lines[1].startswith("script"):
             return msgs
         ys, ending, acts = parse_script(lines[1])
         n = len(ys)
-        ops = lines[1:]
+        # what the body's own variable holds each time the body is resumed from `co_yield acc`: what it yielded from it
+        acc_vals, acc = [], 0
+        for a in acts:
+            if a[0] == "a":
+                acc = acc * 10 + acc_digit(a)
+                acc_vals.append(acc)
+            elif a[0] in "tx":
+                break
+        acc_seen = 0
+        # the execution context (`co <op>`: from inside a running coroutine) is not part of the statement: the same answers are due
+        ops = [strip_co(l)[1] for l in lines[1:]]
+        out = [strip_co(l)[1] for l in out]
         if out and out[0].startswith("skipped"):
             return msgs          # not executed: the run had already exhausted its hang budget (reported as crashes)
         if len(out) != len(ops):
@@ -482,6 +541,14 @@ class GenSuite(Suite):
                 if e.startswith("arg="):
                     last_arg = int(e[4:])      # the while loop issues its next access with this argument
                     continue
+                if e.startswith("acc="):
+                    # the body looks at its own variable after `co_yield acc`: no access style may have modified it
+                    want = acc_vals[acc_seen] if acc_seen < len(acc_vals) else None
+                    acc_seen += 1
+                    if want is None or e[4:] != str(want):
+                        msgs.append("variable: the body yielded its own variable holding %s; resumed, it finds %s in it "
+                                    "(the library modified an object yielded as an lvalue)" % (want, e[4:]))
+                    continue
                 if e.startswith("got="):
                     g = int(e[4:])
                     if mode == "a" and g != last_arg:
@@ -555,7 +622,7 @@ class GenSuite(Suite):
                     cur = inflight[1]
                     inflight = None
                 fut_done = True
-            if kind in ("fwait", "fget") and res and res[0] not in ("nofut", "pending", "stale") and fut_idx is not None:
+            if kind in ("fwait", "fget") and res and res[0] not in ("nofut", "pending", "stale", "would-block") and fut_idx is not None:
                 check_item(fut_idx, res[0], "future." + ("wait()" if kind == "fwait" else "value()"))
                 if inflight and inflight[0] == "call":
                     cur = inflight[1]
@@ -593,6 +660,8 @@ class GenSuite(Suite):
 
     # ------------------------------------------------------------------ evidence
     def nontrivial(self, case, out):
+        out = [strip_co(l)[1] for l in out]
+        case = {"lines": case["lines"][:2] + [strip_co(l)[1] for l in case["lines"][2:]]}
         served = sum(1 for l in out if re.match(r"(next|nnext|ktest|knot|begin|beginc|inc) (true|false)|call (ready|pending)|pinc v", l)) + \
             sum(l.count("anext=") + l.count("kawait=") + l.count("sub=v") for l in out) + sum(max(0, len(l.split(" ; ")[0].split()) - 1) for l in out if l.startswith(("for ", "while ")))
         styles = {l.split()[0] for l in case["lines"][2:]} & set(ACCESS)
@@ -601,26 +670,44 @@ class GenSuite(Suite):
         return served >= 2 and (len(styles) >= 2 or pend or "t" in acts)
 
     def stats(self, cases, outs):
-        ops, acts, modes = {}, {}, {}
+        ops, acts, modes, co_ops, ctx = {}, {}, {}, {}, {"ordinary": 0, "coroutine": 0, "mixed": 0}
         helped = resumed_by_complete = other_thread = exc_bodies = destroyed_parked = 0
+        acc_bodies = acc_after_tmp = acc_resumptions = 0
         for c in cases:
             hdr = c["lines"][0].split()
-            modes[hdr[2]] = modes.get(hdr[2], 0) + 1     # v / a / rv / ra
-            for a in c["lines"][1].split()[1:]:
+            modes[hdr[2]] = modes.get(hdr[2], 0) + 1     # v / a / rv / ra / sv / sa
+            sc = c["lines"][1].split()[1:]
+            for a in sc:
                 acts[a[0]] = acts.get(a[0], 0) + 1
-            exc_bodies += "t" in c["lines"][1].split()[1:]
+            exc_bodies += "t" in sc
+            acc_bodies += any(a[0] == "a" for a in sc)
+            # a temporary (a `y` at an even statement position) yielded before a later yield of the body's variable
+            tmp = [i for i, a in enumerate(sc) if a[0] == "y" and (i + 1) % 2 == 0]
+            acc_after_tmp += bool(tmp) and any(a[0] == "a" for a in sc[tmp[0]:])
+            nco = nall = 0
             for l in c["lines"][2:]:
+                co, l = strip_co(l)
                 k = l.split()[0]
                 ops[k] = ops.get(k, 0) + 1
+                if k in CO_OPS:
+                    nall += 1
+                    nco += co
+                if co:
+                    co_ops[k] = co_ops.get(k, 0) + 1
+            ctx["ordinary" if not nco else "coroutine" if nco == nall else "mixed"] += 1
             o = outs.get(str(c["id"]), [])
             helped += sum(l.count("helped=") for l in o)
-            for l_in, l_out in zip(c["lines"][1:], o):
+            acc_resumptions += sum(l.count(" acc=") for l in o)
+            for l_in, l_out in zip([strip_co(l)[1] for l in c["lines"][1:]], [strip_co(l)[1] for l in o]):
                 if l_in.startswith(("complete", "tcomplete")) and " ; " in l_out:
                     resumed_by_complete += 1
                     other_thread += l_in.startswith("tcomplete")
                 if l_in == "destroy" and l_out.startswith("destroy ;"):
                     destroyed_parked += 1
         return {"consumer_ops": ops, "body_acts": acts, "modes": modes, "bodies_throwing": exc_bodies,
+                "consumer_context_of_cases": ctx, "ops_issued_inside_a_coroutine": co_ops,
+                "bodies_yielding_their_own_variable": acc_bodies, "of_which_after_a_yielded_temporary": acc_after_tmp,
+                "resumptions_after_which_the_body_inspected_its_variable": acc_resumptions,
                 "awaits_completed_by_helper_thread_during_blocking_access": helped,
                 "bodies_resumed_by_complete_op": resumed_by_complete, "of_which_on_second_thread": other_thread,
                 "destroy_of_parked_generator_with_live_guards": destroyed_parked}
@@ -663,9 +750,14 @@ class ExhSuite(GenSuite):
                     continue
                 mode = "a" if (idx // self.parts) % 3 == 0 else "v"
                 ref = (idx // self.parts) % 5 in (1, 3) and "for" not in ops      # generator<int&> / generator<int&,int>
+                mv = not ref and (idx // self.parts) % 5 in (2, 4)                # generator<mval> / generator<mval,int>
+                if (idx // self.parts) % 3 == 1:
+                    # the accumulator variant of the same script: the yields extend and yield ONE variable of the body
+                    acts = ["a%d" % (1 + (idx + j) % 9) if a[0] == "y" and (j or len(acts) < 2 or idx % 2) else a for j, a in enumerate(acts)]
+                co = (idx // self.parts) % 4 == 2                                 # every operation from inside a running coroutine
                 if mode == "a" and "for" in ops and not all((idx + j) % 2 for j, o in enumerate(ops) if o == "for"):
                     mode = "v"
-                lines = ["case 0 %s%s %d" % ("r" if ref else "", mode, idx % 3), "script " + " ".join(acts)]
+                lines = ["case 0 %s%s %d" % ("r" if ref else "s" if mv else "", mode, idx % 3), "script " + " ".join(acts)]
                 for j, o in enumerate(ops):
                     # alternative spellings of the same model steps, selected by the (deterministic) case index
                     if o == "next" and (idx + j) % 2:
@@ -686,6 +778,8 @@ class ExhSuite(GenSuite):
                         lines += ["ktest", "knot"]
                         continue
                     lines.append("%s %d" % (o, 10 + 2 * j) if mode == "a" and o in ("next", "nnext", "anext", "call", "subr 1", "while") else o)
+                if co:
+                    lines[2:] = [("co " + l) if l.split()[0] in CO_OPS else l for l in lines[2:]]
                 lines.append("end")
                 cases.append({"id": 0, "lines": lines})
         return cases
@@ -876,11 +970,12 @@ class C13(Spec):
     technique = ("Lean 4 invariant proof (induction over all body scripts and all consumer operation lists) + differential "
                  "correspondence with the real generator.h / iterator.h")
     level_text = ("Lean 4 theorems over an executable model of generator::promise_type (fields _caller/_internal, _arg, _ret, _exp, _done, "
-                  "_block, _awaiting), the body as a script interpreter (yield, yield nullptr, ready / pending awaitables, co_await pause(), "
-                  "locals, throw, return), and every access style as consumer operations (sync access split at "
+                  "_block, _awaiting), the body as a script interpreter (yield of a local / temporary, yield of a variable the body keeps extending, "
+                  "yield nullptr, ready / pending awaitables, co_await pause(), locals, throw, return), and every access style as consumer operations (sync access split at "
                   "its blocking point so completions by another thread interleave; co_await, subscribe(callback) incl. re-entrant re-arming, "
-                  "future, iterators): sequence/end/exception position, argument delivery, no lost wake-up, locals destroyed once - for every "
-                  "script and every operation list; plus a micro-step model of the two-thread hand-over at a co_yield (notify last). The model "
+                  "future, iterators; each issued by ordinary code or from inside a running coroutine): sequence/end/exception position, "
+                  "argument delivery, no lost wake-up, the body's own yielded variable never modified, accesses of non-awaiting code "
+                  "served inside the call in either context, locals destroyed once - for every script and every operation list; plus a micro-step model of the two-thread hand-over at a co_yield (notify last). The model "
                   "is tied to the headers by running both on generated (script, operation list) pairs and diffing every line; property oracles "
                   "run on the implementation trace, including all short baton schedules of a consumer thread vs a completing thread")
     level_note = ("trusted: Lean kernel (axioms propext/Classical.choice/Quot.sound at most), the hand-written models "
